@@ -249,22 +249,45 @@ func checkC08(c *Ctx) {
 					continue
 				}
 				cond := ifi.Cond
-				okCond := false
-				if ex, ok := cond.(*ssa.Extract); ok {
-					if _, isNext := ex.Tuple.(*ssa.Next); isNext {
-						okCond = true // loop continuation
+				// the condition may only compare with the source parameter
+				// (possibly through `&&`/`||`/`!` materialised as a phi of a
+				// named boolean) or be the loop's continuation test
+				var okV func(v ssa.Value, seen map[ssa.Value]bool) bool
+				okV = func(v ssa.Value, seen map[ssa.Value]bool) bool {
+					if seen[v] {
+						return true
 					}
-				}
-				if bo, ok := cond.(*ssa.BinOp); ok {
-					for _, v := range []ssa.Value{bo.X, bo.Y} {
-						if pp := paramOf(v); pp != nil && pp.Name() == "source" {
-							okCond = true
+					seen[v] = true
+					switch x := v.(type) {
+					case *ssa.Const:
+						return true
+					case *ssa.Extract:
+						_, isNext := x.Tuple.(*ssa.Next)
+						return isNext
+					case *ssa.UnOp:
+						if x.Op == token.NOT {
+							return okV(x.X, seen)
 						}
-						if _, isParam := v.(*ssa.Parameter); isParam {
-							okCond = true
+					case *ssa.Phi:
+						for _, e := range x.Edges {
+							if !okV(e, seen) {
+								return false
+							}
+						}
+						return true
+					case *ssa.BinOp:
+						for _, v := range []ssa.Value{x.X, x.Y} {
+							if pp := paramOf(v); pp != nil && pp.Name() == "source" {
+								return true
+							}
+							if _, isParam := v.(*ssa.Parameter); isParam {
+								return true
+							}
 						}
 					}
+					return false
 				}
+				okCond := okV(cond, map[ssa.Value]bool{})
 				// sanity panics on the update (before the loop) are not skips of sessions
 				if !reaches2(x, x) {
 					okCond = true
